@@ -14,6 +14,8 @@ class Gen:
         self.nf = 0
         self.tree = []       # drv_scope tokens
         self.obs = []        # observation points in use order: (kind, key, count)
+        self.there = [False]
+        self.tvis = [False]  # is a typedef of the type name `t` visible here? (one flag per open scope; a use of an undeclared type name is a syntax error, not an unknown identifier)
 
     def decl_id(self):
         self.nd += 1
@@ -34,9 +36,13 @@ class Gen:
         return ' + '.join(NAMES[x] for x in ns), n
 
     def holder(self, pfx_kind, fname=None):
-        """int uK = <uses>;  possibly through a quantifier that binds one of the names"""
+        """int uK = <uses>;  possibly through a quantifier that binds one of the names; or  t uK;  a use of the type name t"""
         self.nu += 1
         h = 'u%d' % self.nu
+        if self.tvis[-1] and self.rng.random() < 0.3:
+            self.tree.append('u4')
+            self.obs.append((pfx_kind + ':type', (fname, h), 1))
+            return 't %s;' % h
         if self.rng.random() < 0.25:
             x = self.pick(); d = self.decl_id()
             self.tree.append('('); self.tree.append('d%d,%d' % (x, d))
@@ -57,6 +63,14 @@ class Gen:
         return text
 
     def decl(self):
+        if self.rng.random() < 0.2 and not self.there[-1]:
+            # (a second typedef of t in the same scope is refused as a duplicate and not added, unlike a second variable: not generated)
+            self.there[-1] = True
+            # a typedef of the name t (name 4 of the model): type names live in the same frames as variables
+            d = self.decl_id()
+            self.tree.append('d4,%d' % d)
+            self.tvis[-1] = True
+            return 'typedef %s t;' % self.ty(d)
         x = self.pick(); d = self.decl_id()
         self.tree.append('d%d,%d' % (x, d))
         return '%s %s;' % (self.ty(d), NAMES[x])
@@ -69,9 +83,9 @@ class Gen:
         if depth < 3:
             for _ in range(self.rng.randrange(0, 3)):
                 if self.rng.random() < 0.5:
-                    self.tree.append('(')
+                    self.tree.append('('); self.tvis.append(self.tvis[-1]); self.there.append(False)
                     body = self.block_items(depth + 1, kind, fname)
-                    self.tree.append(')')
+                    self.tree.append(')'); self.tvis.pop(); self.there.pop()
                     out.append('{ ' + ' '.join(body) + ' }')
                 else:
                     # one to three range-for loops nested directly in each other (no braces between them), then a block
@@ -80,9 +94,9 @@ class Gen:
                         x = self.pick(); d = self.decl_id()
                         self.tree.append('('); self.tree.append('d%d,%d' % (x, d))
                         heads.append('for (%s : %s)' % (NAMES[x], self.ty(d)))
-                    self.tree.append('(')
+                    self.tree.append('('); self.tvis.append(self.tvis[-1]); self.there.append(False)
                     body = self.block_items(depth + 1, kind, fname)
-                    self.tree.append(')')
+                    self.tree.append(')'); self.tvis.pop(); self.there.pop()
                     for _ in heads: self.tree.append(')')
                     out.append('%s { %s }' % (' '.join(heads), ' '.join(body)))
         return out
@@ -90,7 +104,7 @@ class Gen:
     def function(self, kind):
         self.nf += 1
         fname = 'f%d' % self.nf
-        self.tree.append('(')
+        self.tree.append('('); self.tvis.append(self.tvis[-1]); self.there.append(False)
         params = []
         used = set()
         for _ in range(self.rng.randrange(0, 3)):
@@ -101,7 +115,7 @@ class Gen:
             self.tree.append('d%d,%d' % (x, d))
             params.append('%s %s' % (self.ty(d), NAMES[x]))
         body = self.block_items(1, 'funlocal', fname)
-        self.tree.append(')')
+        self.tree.append(')'); self.tvis.pop(); self.there.pop()
         return 'void %s(%s) { %s }' % (fname, ', '.join(params), ' '.join(body))
 
     def decl_block(self, kind):
@@ -114,7 +128,7 @@ class Gen:
         return '\n'.join(out)
 
     def template(self, ti):
-        self.tree.append('(')
+        self.tree.append('('); self.tvis.append(self.tvis[-1]); self.there.append(False)
         params = []
         used = set()
         for _ in range(self.rng.randrange(0, 3)):
@@ -146,7 +160,7 @@ class Gen:
             self.obs.append(('guard', (ti, ei), n))
             self.tree.append(')')
             edges.append('<transition><source ref="id%d"/><target ref="id%d"/>%s<label kind="guard">%s &gt;= 0</label></transition>' % (ti * 10, ti * 10, sel, e))
-        self.tree.append(')')
+        self.tree.append(')'); self.tvis.pop(); self.there.pop()
         return ('<template><name>T%d</name><parameter>%s</parameter><declaration>%s</declaration>%s<init ref="id%d"/>%s</template>'
                 % (ti, ', '.join(params), decl, ''.join(locs), ti * 10, ''.join(edges)))
 
@@ -425,3 +439,57 @@ def dot_expected_type(ty, names, pname):
     if k == 'B': return ['bool']
     if k == 'S': return ['label', 'S:', ['label', (pname if ty[1] >= 2000 else 'T%d' % (ty[1] - 1000)) + ':::', ['label', '#', ['range', ['scalar'], '"0"', '"%s - 1"' % (('(%s)' if ty[2][0] == 'O' and PREC[ty[2][1]] < 40 else '%s') % bshow(ty[2], names))]]]]
     return None
+
+
+def process_set_probes(run, vlib, rng, n, types=True):
+    """queries T(e1, .., en).x over a template with free parameters on the system line: the lookup arguments must reach the process set in the order
+    written (nested ARRAY nodes, first argument innermost), and the member is that of the template"""
+    nps = 0
+    thorough = None
+    nps = 0
+    PS = ('<?xml version="1.0" encoding="utf-8"?><nta><declaration>int gq;</declaration><template><name>T</name><parameter>const int[0,3] a, const int[0,4] b, const int[0,5] c</parameter>'
+          '<declaration>int[0,9] v; int[0,a + 40] w; clock x;</declaration><location id="id0"><name>L0</name></location><init ref="id0"/></template>'
+          '<template><name>U</name><parameter>const int[0,2] k, const int[0,6] m</parameter><declaration>int y;</declaration><location id="id1"/><init ref="id1"/></template><system>system T, U;</system></nta>')
+    probes = []
+    for _ in range(n):
+        if rng.random() < 0.6:
+            args = [rng.randrange(0, 4), rng.randrange(0, 5), rng.randrange(0, 6)]; t, mem = 'T', rng.choice(['v', 'w', 'L0', 'x'])
+        else:
+            args = [rng.randrange(0, 3), rng.randrange(0, 7)]; t, mem = 'U', 'y'
+        probes.append((t, args, mem, 'E<> %s(%s).%s%s' % (t, ', '.join(map(str, args)), mem, '' if mem == 'L0' else ' > 0')))
+    j = vlib.Job()
+    c = j.case('ps', fork=True).cmd('BIND 1').model('xml', PS).dump('errors')
+    for p in probes:
+        c.query(p[3], rt=False)
+    c.end()
+    rr = vlib.run_jobs(j)['ps']
+    if rr['status'] != 'ok':
+        run.fail('parser crashed on a query over a process set (%s)' % rr['status'], dict(xml=PS, queries=[p[3] for p in probes][:5]), shape='crash:process-set')
+    else:
+        for (t, args, mem, q), cm in zip(probes, rr['cmds'][3:]):
+            tree = next((l[5:] for l in cm[2] if l.startswith('tree ')), None)
+            if tree is None:
+                run.fail('the query %r over a process set is rejected: %s' % (q, [l for l in cm[2] if l.startswith('error')][:1]), dict(xml=PS, query=q), shape='qualified:process-set-rejected')
+                continue
+            nps += 1
+            node = sexpr(tree)
+            def find(n):
+                if isinstance(n, list) and n and n[0] == 'DOT': return n
+                for x in (n[1:] if isinstance(n, list) else []):
+                    r = find(x)
+                    if r: return r
+            dot = find(node)
+            got, cur = [], next((x for x in dot[1:] if isinstance(x, list) and x[0] == 'ARRAY'), None) if dot else None
+            while cur and cur[0] == 'ARRAY':
+                kids = [x for x in cur[1:] if isinstance(x, list)]
+                got.insert(0, kids[1][1] if kids[1][0] == 'CONSTANT' else '?')
+                cur = kids[0]
+            if got != ['i:%d' % a for a in args]:
+                run.fail('%s: the lookup arguments reach the process set as %s' % (q, got), dict(xml=PS, query=q, tree=tree[:500]), shape='qualified:process-set-arguments')
+            if mem == 'w' and types:
+                ty = dot[2] if len(dot) > 2 else None
+                want = ['range', ['int'], '"0"', '"%d + 40"' % args[0]]
+                if ty != want:
+                    run.fail('%s has type %s: the argument of the parameter a is not substituted (expected %s)' % (q, ty, want), dict(xml=PS, query=q), shape='qualified:process-set-unsubstituted')
+
+    return nps
